@@ -117,6 +117,12 @@ def bilinearF32 (w h : Int) (src : Int → Int → Int) (px py : Float32) : Opti
   let fy := py - Float32.ofInt p0y
   some (accF32 src (bilinearTaps w h p0x p0y fx fy))
 
+def iroundF32 (x : Float32) : Int := f2i32 (x + (if x < 0.0 then -0.5 else 0.5))
+
+def nearestF32 (w h : Int) (px py : Float32) : Option (Int × Int) :=
+  let cx := iroundF32 px; let cy := iroundF32 py
+  if cx ≥ 0 ∧ cy ≥ 0 ∧ cx < w ∧ cy < h then some (cx, cy) else none
+
 /-! ## matrix3x2 -/
 
 structure M32 (K : Type) where
